@@ -14,8 +14,8 @@ for pid, c in D.CHECKS.items():
         "evidence_file": f"/verif/evidence/{pid}.json",
         "replay_cmd_template": "/venv/bin/python {path}",
         "engine": c["engine"],
-        "level_claimed": {"category": "proof", "text": c["text"], "design_ref": f"DESIGN.md section 5, {pid}"},
-        "level_note": c["note"],
+        "level_claimed": {"category": "proof", "text": c["text"] + getattr(D, "ADD_TEXT", {}).get(pid, ""), "design_ref": f"DESIGN.md section 5, {pid}"},
+        "level_note": c["note"] + "; " + getattr(D, "RTNOTE", ""),
         "technique": c["technique"],
     })
 m = {
